@@ -3,6 +3,7 @@
 package mc
 
 import (
+	"bytes"
 	"encoding/hex"
 	"fmt"
 	"math/big"
@@ -87,6 +88,12 @@ func FullAlphabet(c *Cast) func(w *World) []Event {
 		depVal2 := DepositValue(c.Payer.Acc.String(), new(big.Int).Mul(big.NewInt(6_000_000), big.NewInt(1e12)), new(big.Int).Mul(big.NewInt(1_000), big.NewInt(1e12)))
 		add("Submit(R2,dep1,valid2)", "submit-dep/valid2", func(w *World) sdk.Msg { return MsgSubmit(c.R2.Acc, c.Dep1, depVal2) })
 		add("Submit(R1,wd1,std)", "submit-wd", func(w *World) sdk.Msg { return MsgSubmit(c.R1.Acc, c.Wd1, U256(1)) })
+		add("Submit(S1,cyc,std)", "submit/selector", func(w *World) sdk.Msg {
+			if q := cyc(w); q != nil {
+				return MsgSubmit(c.S1.Acc, q, U256(1))
+			}
+			return nil
+		})
 		add("Submit(Payer,cyc,std)", "submit/nonreporter", func(w *World) sdk.Msg {
 			if q := cyc(w); q != nil {
 				return MsgSubmit(c.Payer.Acc, q, U256(1))
@@ -110,6 +117,21 @@ func FullAlphabet(c *Cast) func(w *World) []Event {
 		for _, a := range []int64{0, 1, 49, 50, 1_000_001} {
 			a := a
 			add(fmt.Sprintf("Tip(modeq,%d)", a), "tip/modeq", func(w *World) sdk.Msg { return MsgTip(c.Tipper.Acc, c.ModeQ, a) })
+		}
+		add("Tip(modeq3,50)", "tip/modeq", func(w *World) sdk.Msg { return MsgTip(c.Tipper.Acc, c.ModeQ3, 50) })
+		// three validator reporters on a weighted-mode query: with stakes 5000/3000/2900 the mode (7) differs from the median (8)
+		for _, rv := range []struct {
+			n string
+			u *User
+			v int64
+		}{{"RV1", c.RV1, 7}, {"RV2", c.RV2, 8}, {"RV3", c.RV3, 9}} {
+			rv := rv
+			add(fmt.Sprintf("Submit(%s,modeq3,%d)", rv.n, rv.v), "submit-mode/rv", func(w *World) sdk.Msg {
+				if rv.u == nil {
+					return nil
+				}
+				return MsgSubmit(rv.u.Acc, c.ModeQ3, U256(rv.v))
+			})
 		}
 		add("Tip(modeq2,777)", "tip/modeq", func(w *World) sdk.Msg { return MsgTip(c.Tipper.Acc, c.ModeQ2, 777) })
 		add("Tip(dep1,1000)", "tip/dep", func(w *World) sdk.Msg { return MsgTip(c.Tipper.Acc, c.Dep1, 1000) })
@@ -163,6 +185,11 @@ func FullAlphabet(c *Cast) func(w *World) []Event {
 		addN("Delegate+Select(Payer->R1)", "select/new", func(w *World) []sdk.Msg {
 			return []sdk.Msg{MsgDelegate(c.Payer.Acc, V[1], 5*TRB), MsgSelect(c.Payer.Acc, c.R1.Acc)}
 		})
+		// a selector whose stake meets the reporter's minimum only as the sum of two delegations
+		addN("Delegate+Select(Tipper->R1,split)", "select/split", func(w *World) []sdk.Msg {
+			return []sdk.Msg{MsgDelegate(c.Tipper.Acc, V[0], 600_000), MsgDelegate(c.Tipper.Acc, V[1], 600_000), MsgSelect(c.Tipper.Acc, c.R1.Acc)}
+		})
+		add("RemoveSelector(Payer,Tipper)", "removeselector", func(w *World) sdk.Msg { return MsgRemoveSelector(c.Payer.Acc, c.Tipper.Acc) })
 		add("Switch(S1->R2)", "switch", func(w *World) sdk.Msg { return MsgSwitch(c.S1.Acc, c.R2.Acc) })
 		add("Switch(S2->R1)", "switch", func(w *World) sdk.Msg { return MsgSwitch(c.S2.Acc, c.R1.Acc) })
 		add("Switch(S1->RV2)", "switch", func(w *World) sdk.Msg { return MsgSwitch(c.S1.Acc, c.RV2.Acc) })
@@ -458,6 +485,28 @@ func FullAlphabet(c *Cast) func(w *World) []Event {
 			}
 			return nil
 		})
+		for _, pos := range []string{"first", "middle", "last"} {
+			pos := pos
+			add("RequestAttest(modeq,"+pos+")", "attest/"+pos, func(w *World) sdk.Msg {
+				var l []AggKV
+				for _, a := range w.Aggregates() {
+					if bytes.Equal(a.QueryId, QID(c.ModeQ)) {
+						l = append(l, a)
+					}
+				}
+				if len(l) == 0 {
+					return nil
+				}
+				a := l[0]
+				switch pos {
+				case "middle":
+					a = l[len(l)/2]
+				case "last":
+					a = l[len(l)-1]
+				}
+				return MsgRequestAttest(c.Payer.Acc, a.QueryId, a.Ts)
+			})
+		}
 		add("RequestAttest(eth,0)", "attest/0", func(w *World) sdk.Msg { return MsgRequestAttest(c.Payer.Acc, QID(c.ETH), 0) })
 		add("RequestAttest(badhex)", "attest/badhex", func(w *World) sdk.Msg {
 			m := MsgRequestAttest(c.Payer.Acc, QID(c.ETH), 0)
